@@ -7,9 +7,12 @@ Bind/Proofs.vos Bind/Proofs.vok Bind/Proofs.required_vos: Bind/Proofs.v Bind/Mod
 Bind/PytdModel.vo Bind/PytdModel.glob Bind/PytdModel.v.beautified Bind/PytdModel.required_vo: Bind/PytdModel.v Bind/Model.vo
 Bind/PytdModel.vio: Bind/PytdModel.v Bind/Model.vio
 Bind/PytdModel.vos Bind/PytdModel.vok Bind/PytdModel.required_vos: Bind/PytdModel.v Bind/Model.vos
-Blocks/ExcProofs.vo Blocks/ExcProofs.glob Blocks/ExcProofs.v.beautified Blocks/ExcProofs.required_vo: Blocks/ExcProofs.v Generated/C16_OpcodeFlags.vo Blocks/Model.vo Blocks/Proofs.vo
-Blocks/ExcProofs.vio: Blocks/ExcProofs.v Generated/C16_OpcodeFlags.vio Blocks/Model.vio Blocks/Proofs.vio
-Blocks/ExcProofs.vos Blocks/ExcProofs.vok Blocks/ExcProofs.required_vos: Blocks/ExcProofs.v Generated/C16_OpcodeFlags.vos Blocks/Model.vos Blocks/Proofs.vos
+Bind/PytdProofs.vo Bind/PytdProofs.glob Bind/PytdProofs.v.beautified Bind/PytdProofs.required_vo: Bind/PytdProofs.v Bind/Model.vo Bind/Proofs.vo Bind/PytdModel.vo
+Bind/PytdProofs.vio: Bind/PytdProofs.v Bind/Model.vio Bind/Proofs.vio Bind/PytdModel.vio
+Bind/PytdProofs.vos Bind/PytdProofs.vok Bind/PytdProofs.required_vos: Bind/PytdProofs.v Bind/Model.vos Bind/Proofs.vos Bind/PytdModel.vos
+Blocks/ExcProofs.vo Blocks/ExcProofs.glob Blocks/ExcProofs.v.beautified Blocks/ExcProofs.required_vo: Blocks/ExcProofs.v Generated/C16_OpcodeFlags.vo Blocks/Model.vo
+Blocks/ExcProofs.vio: Blocks/ExcProofs.v Generated/C16_OpcodeFlags.vio Blocks/Model.vio
+Blocks/ExcProofs.vos Blocks/ExcProofs.vok Blocks/ExcProofs.required_vos: Blocks/ExcProofs.v Generated/C16_OpcodeFlags.vos Blocks/Model.vos
 Blocks/Model.vo Blocks/Model.glob Blocks/Model.v.beautified Blocks/Model.required_vo: Blocks/Model.v Generated/C16_OpcodeFlags.vo
 Blocks/Model.vio: Blocks/Model.v Generated/C16_OpcodeFlags.vio
 Blocks/Model.vos Blocks/Model.vok Blocks/Model.required_vos: Blocks/Model.v Generated/C16_OpcodeFlags.vos
@@ -82,6 +85,12 @@ Extract/ExtractSerial.vos Extract/ExtractSerial.vok Extract/ExtractSerial.requir
 Extract/ExtractSolver.vo Extract/ExtractSolver.glob Extract/ExtractSolver.v.beautified Extract/ExtractSolver.required_vo: Extract/ExtractSolver.v Typegraph/Graph.vo Typegraph/Solver.vo
 Extract/ExtractSolver.vio: Extract/ExtractSolver.v Typegraph/Graph.vio Typegraph/Solver.vio
 Extract/ExtractSolver.vos Extract/ExtractSolver.vok Extract/ExtractSolver.required_vos: Extract/ExtractSolver.v Typegraph/Graph.vos Typegraph/Solver.vos
+Flow/Frame.vo Flow/Frame.glob Flow/Frame.v.beautified Flow/Frame.required_vo: Flow/Frame.v Flow/Model.vo
+Flow/Frame.vio: Flow/Frame.v Flow/Model.vio
+Flow/Frame.vos Flow/Frame.vok Flow/Frame.required_vos: Flow/Frame.v Flow/Model.vos
+Flow/FrameProofs.vo Flow/FrameProofs.glob Flow/FrameProofs.v.beautified Flow/FrameProofs.required_vo: Flow/FrameProofs.v Flow/Model.vo Flow/Proofs.vo Flow/Frame.vo
+Flow/FrameProofs.vio: Flow/FrameProofs.v Flow/Model.vio Flow/Proofs.vio Flow/Frame.vio
+Flow/FrameProofs.vos Flow/FrameProofs.vok Flow/FrameProofs.required_vos: Flow/FrameProofs.v Flow/Model.vos Flow/Proofs.vos Flow/Frame.vos
 Flow/Model.vo Flow/Model.glob Flow/Model.v.beautified Flow/Model.required_vo: Flow/Model.v 
 Flow/Model.vio: Flow/Model.v 
 Flow/Model.vos Flow/Model.vok Flow/Model.required_vos: Flow/Model.v 
@@ -217,9 +226,9 @@ Props/C05.vos Props/C05.vok Props/C05.required_vos: Props/C05.v Print/Model.vos 
 Props/C06.vo Props/C06.glob Props/C06.v.beautified Props/C06.required_vo: Props/C06.v Conv/Model.vo Conv/Proofs.vo
 Props/C06.vio: Props/C06.v Conv/Model.vio Conv/Proofs.vio
 Props/C06.vos Props/C06.vok Props/C06.required_vos: Props/C06.v Conv/Model.vos Conv/Proofs.vos
-Props/C07.vo Props/C07.glob Props/C07.v.beautified Props/C07.required_vo: Props/C07.v Typegraph/Graph.vo Typegraph/Solver.vo Typegraph/Spec.vo Typegraph/SetLemmas.vo Typegraph/RfgProofs.vo Typegraph/PathProofs.vo Typegraph/SearchProofs.vo Typegraph/SolverProofs.vo Typegraph/ResolveMono.vo Typegraph/ExactProofs.vo Typegraph/WalkProofs.vo Typegraph/FuelProofs.vo
-Props/C07.vio: Props/C07.v Typegraph/Graph.vio Typegraph/Solver.vio Typegraph/Spec.vio Typegraph/SetLemmas.vio Typegraph/RfgProofs.vio Typegraph/PathProofs.vio Typegraph/SearchProofs.vio Typegraph/SolverProofs.vio Typegraph/ResolveMono.vio Typegraph/ExactProofs.vio Typegraph/WalkProofs.vio Typegraph/FuelProofs.vio
-Props/C07.vos Props/C07.vok Props/C07.required_vos: Props/C07.v Typegraph/Graph.vos Typegraph/Solver.vos Typegraph/Spec.vos Typegraph/SetLemmas.vos Typegraph/RfgProofs.vos Typegraph/PathProofs.vos Typegraph/SearchProofs.vos Typegraph/SolverProofs.vos Typegraph/ResolveMono.vos Typegraph/ExactProofs.vos Typegraph/WalkProofs.vos Typegraph/FuelProofs.vos
+Props/C07.vo Props/C07.glob Props/C07.v.beautified Props/C07.required_vo: Props/C07.v Typegraph/Graph.vo Typegraph/Solver.vo Typegraph/Spec.vo Typegraph/SetLemmas.vo Typegraph/RfgProofs.vo Typegraph/PathProofs.vo Typegraph/SearchProofs.vo Typegraph/SolverProofs.vo Typegraph/ResolveMono.vo Typegraph/ExactProofs.vo Typegraph/WalkProofs.vo Typegraph/FuelProofs.vo Typegraph/SolverReach.vo Typegraph/Reach.vo
+Props/C07.vio: Props/C07.v Typegraph/Graph.vio Typegraph/Solver.vio Typegraph/Spec.vio Typegraph/SetLemmas.vio Typegraph/RfgProofs.vio Typegraph/PathProofs.vio Typegraph/SearchProofs.vio Typegraph/SolverProofs.vio Typegraph/ResolveMono.vio Typegraph/ExactProofs.vio Typegraph/WalkProofs.vio Typegraph/FuelProofs.vio Typegraph/SolverReach.vio Typegraph/Reach.vio
+Props/C07.vos Props/C07.vok Props/C07.required_vos: Props/C07.v Typegraph/Graph.vos Typegraph/Solver.vos Typegraph/Spec.vos Typegraph/SetLemmas.vos Typegraph/RfgProofs.vos Typegraph/PathProofs.vos Typegraph/SearchProofs.vos Typegraph/SolverProofs.vos Typegraph/ResolveMono.vos Typegraph/ExactProofs.vos Typegraph/WalkProofs.vos Typegraph/FuelProofs.vos Typegraph/SolverReach.vos Typegraph/Reach.vos
 Props/C08.vo Props/C08.glob Props/C08.v.beautified Props/C08.required_vo: Props/C08.v Typegraph/History.vo Typegraph/HistoryProofs.vo Generated/C08_Invalidation.vo Typegraph/HistorySolver.vo
 Props/C08.vio: Props/C08.v Typegraph/History.vio Typegraph/HistoryProofs.vio Generated/C08_Invalidation.vio Typegraph/HistorySolver.vio
 Props/C08.vos Props/C08.vok Props/C08.required_vos: Props/C08.v Typegraph/History.vos Typegraph/HistoryProofs.vos Generated/C08_Invalidation.vos Typegraph/HistorySolver.vos
@@ -229,30 +238,30 @@ Props/C09.vos Props/C09.vok Props/C09.required_vos: Props/C09.v Typegraph/Reach.
 Props/C10.vo Props/C10.glob Props/C10.v.beautified Props/C10.required_vo: Props/C10.v Mro/Model.vo Mro/Proofs.vo
 Props/C10.vio: Props/C10.v Mro/Model.vio Mro/Proofs.vio
 Props/C10.vos Props/C10.vok Props/C10.required_vos: Props/C10.v Mro/Model.vos Mro/Proofs.vos
-Props/C11.vo Props/C11.glob Props/C11.v.beautified Props/C11.required_vo: Props/C11.v Opt/Syntax.vo Generated/C11_Passes.vo Opt/Model.vo Opt/Spec.vo Opt/Proofs.vo Opt/Idem.vo Opt/Stable.vo
-Props/C11.vio: Props/C11.v Opt/Syntax.vio Generated/C11_Passes.vio Opt/Model.vio Opt/Spec.vio Opt/Proofs.vio Opt/Idem.vio Opt/Stable.vio
-Props/C11.vos Props/C11.vok Props/C11.required_vos: Props/C11.v Opt/Syntax.vos Generated/C11_Passes.vos Opt/Model.vos Opt/Spec.vos Opt/Proofs.vos Opt/Idem.vos Opt/Stable.vos
+Props/C11.vo Props/C11.glob Props/C11.v.beautified Props/C11.required_vo: Props/C11.v Opt/Syntax.vo Generated/C11_Passes.vo Opt/Model.vo Opt/Spec.vo Opt/Proofs.vo Opt/Idem.vo Opt/Stable.vo Opt/Rewrites.vo Opt/RewriteProofs.vo
+Props/C11.vio: Props/C11.v Opt/Syntax.vio Generated/C11_Passes.vio Opt/Model.vio Opt/Spec.vio Opt/Proofs.vio Opt/Idem.vio Opt/Stable.vio Opt/Rewrites.vio Opt/RewriteProofs.vio
+Props/C11.vos Props/C11.vok Props/C11.required_vos: Props/C11.v Opt/Syntax.vos Generated/C11_Passes.vos Opt/Model.vos Opt/Spec.vos Opt/Proofs.vos Opt/Idem.vos Opt/Stable.vos Opt/Rewrites.vos Opt/RewriteProofs.vos
 Props/C12.vo Props/C12.glob Props/C12.v.beautified Props/C12.required_vo: Props/C12.v Serial/Model.vo Serial/Proofs.vo Serial/HashProofs.vo Serial/OrderProofs.vo Serial/Grammar.vo Serial/GrammarProofs.vo Serial/Ast.vo Serial/AstProofs.vo Generated/C12_Schema.vo Serial/SchemaFacts.vo
 Props/C12.vio: Props/C12.v Serial/Model.vio Serial/Proofs.vio Serial/HashProofs.vio Serial/OrderProofs.vio Serial/Grammar.vio Serial/GrammarProofs.vio Serial/Ast.vio Serial/AstProofs.vio Generated/C12_Schema.vio Serial/SchemaFacts.vio
 Props/C12.vos Props/C12.vok Props/C12.required_vos: Props/C12.v Serial/Model.vos Serial/Proofs.vos Serial/HashProofs.vos Serial/OrderProofs.vos Serial/Grammar.vos Serial/GrammarProofs.vos Serial/Ast.vos Serial/AstProofs.vos Generated/C12_Schema.vos Serial/SchemaFacts.vos
-Props/C13.vo Props/C13.glob Props/C13.v.beautified Props/C13.required_vo: Props/C13.v Bind/Model.vo Bind/Proofs.vo
-Props/C13.vio: Props/C13.v Bind/Model.vio Bind/Proofs.vio
-Props/C13.vos Props/C13.vok Props/C13.required_vos: Props/C13.v Bind/Model.vos Bind/Proofs.vos
+Props/C13.vo Props/C13.glob Props/C13.v.beautified Props/C13.required_vo: Props/C13.v Bind/Model.vo Bind/Proofs.vo Bind/PytdModel.vo Bind/PytdProofs.vo
+Props/C13.vio: Props/C13.v Bind/Model.vio Bind/Proofs.vio Bind/PytdModel.vio Bind/PytdProofs.vio
+Props/C13.vos Props/C13.vok Props/C13.required_vos: Props/C13.v Bind/Model.vos Bind/Proofs.vos Bind/PytdModel.vos Bind/PytdProofs.vos
 Props/C14.vo Props/C14.glob Props/C14.v.beautified Props/C14.required_vo: Props/C14.v Ops/Model.vo Generated/C14_Builtins.vo Ops/Proofs.vo Ops/Closed.vo
 Props/C14.vio: Props/C14.v Ops/Model.vio Generated/C14_Builtins.vio Ops/Proofs.vio Ops/Closed.vio
 Props/C14.vos Props/C14.vok Props/C14.required_vos: Props/C14.v Ops/Model.vos Generated/C14_Builtins.vos Ops/Proofs.vos Ops/Closed.vos
 Props/C15.vo Props/C15.glob Props/C15.v.beautified Props/C15.required_vo: Props/C15.v Io/Model.vo Generated/C15_Handlers.vo Io/Proofs.vo Io/LineProofs.vo
 Props/C15.vio: Props/C15.v Io/Model.vio Generated/C15_Handlers.vio Io/Proofs.vio Io/LineProofs.vio
 Props/C15.vos Props/C15.vok Props/C15.required_vos: Props/C15.v Io/Model.vos Generated/C15_Handlers.vos Io/Proofs.vos Io/LineProofs.vos
-Props/C16.vo Props/C16.glob Props/C16.v.beautified Props/C16.required_vo: Props/C16.v Generated/C16_OpcodeFlags.vo Blocks/Model.vo Blocks/Proofs.vo Blocks/Witness.vo
-Props/C16.vio: Props/C16.v Generated/C16_OpcodeFlags.vio Blocks/Model.vio Blocks/Proofs.vio Blocks/Witness.vio
-Props/C16.vos Props/C16.vok Props/C16.required_vos: Props/C16.v Generated/C16_OpcodeFlags.vos Blocks/Model.vos Blocks/Proofs.vos Blocks/Witness.vos
+Props/C16.vo Props/C16.glob Props/C16.v.beautified Props/C16.required_vo: Props/C16.v Generated/C16_OpcodeFlags.vo Blocks/Model.vo Blocks/Proofs.vo Blocks/Witness.vo Blocks/ExcProofs.vo
+Props/C16.vio: Props/C16.v Generated/C16_OpcodeFlags.vio Blocks/Model.vio Blocks/Proofs.vio Blocks/Witness.vio Blocks/ExcProofs.vio
+Props/C16.vos Props/C16.vok Props/C16.required_vos: Props/C16.v Generated/C16_OpcodeFlags.vos Blocks/Model.vos Blocks/Proofs.vos Blocks/Witness.vos Blocks/ExcProofs.vos
 Props/C17.vo Props/C17.glob Props/C17.v.beautified Props/C17.required_vo: Props/C17.v Booleq/Model.vo Booleq/Proofs.vo
 Props/C17.vio: Props/C17.v Booleq/Model.vio Booleq/Proofs.vio
 Props/C17.vos Props/C17.vok Props/C17.required_vos: Props/C17.v Booleq/Model.vos Booleq/Proofs.vos
-Props/C18.vo Props/C18.glob Props/C18.v.beautified Props/C18.required_vo: Props/C18.v Flow/Model.vo Flow/Proofs.vo
-Props/C18.vio: Props/C18.v Flow/Model.vio Flow/Proofs.vio
-Props/C18.vos Props/C18.vok Props/C18.required_vos: Props/C18.v Flow/Model.vos Flow/Proofs.vos
+Props/C18.vo Props/C18.glob Props/C18.v.beautified Props/C18.required_vo: Props/C18.v Flow/Model.vo Flow/Proofs.vo Flow/Frame.vo Flow/FrameProofs.vo
+Props/C18.vio: Props/C18.v Flow/Model.vio Flow/Proofs.vio Flow/Frame.vio Flow/FrameProofs.vio
+Props/C18.vos Props/C18.vok Props/C18.required_vos: Props/C18.v Flow/Model.vos Flow/Proofs.vos Flow/Frame.vos Flow/FrameProofs.vos
 Props/C19.vo Props/C19.glob Props/C19.v.beautified Props/C19.required_vo: Props/C19.v Plan/Model.vo Plan/Proofs.vo Plan/StmtProofs.vo Plan/CoverProofs.vo Plan/GraphProofs.vo
 Props/C19.vio: Props/C19.v Plan/Model.vio Plan/Proofs.vio Plan/StmtProofs.vio Plan/CoverProofs.vio Plan/GraphProofs.vio
 Props/C19.vos Props/C19.vok Props/C19.required_vos: Props/C19.v Plan/Model.vos Plan/Proofs.vos Plan/StmtProofs.vos Plan/CoverProofs.vos Plan/GraphProofs.vos
